@@ -89,6 +89,11 @@ impl Vm {
           self.inline_cache[module.id()] = cache;
         }
       } else {
+        // a module that failed to compile never registered a cache
+        // keep module ids and cache positions aligned
+        while self.inline_cache.len() < module.id() {
+          self.inline_cache.push(InlineCache::new(0, 0));
+        }
         self.inline_cache.push(cache);
       }
       self.manage_obj(fun)
